@@ -762,6 +762,9 @@ pub fn run_c15(ctx: &mut Ctx, rng: &mut Rng, _t: bool) {
     };
     for (k, net) in pr.nets.iter().enumerate() {
         let t = &pr.inst.trains[k];
+        if k > 0 {
+            ctx.rep.evaluations += 1; // one evaluation per estimated-time network
+        }
         let st = check_est_net(ctx, net, &pr.inst.links, &t.origs, &t.dests, t.depart, &pr.info);
         ctx.rep.max("max_walks", st.walks as f64);
         ctx.rep.max("max_nodes", st.nodes as f64);
